@@ -35,6 +35,8 @@ pub enum Forgery {
     /// stateless: present under a different nonce
     Nonce(u64, u64),
     Garbage(usize),
+    /// same-index message of a parallel session with the SAME static keys / psks but fresh ephemerals
+    OtherSessionSameStatics,
 }
 
 #[derive(Clone, Debug, Serialize, Deserialize)]
@@ -50,14 +52,47 @@ pub struct Case {
     /// (empty for a 16-byte message), 2 message length, 3 one byte more than the payload
     #[serde(default)]
     pub fbuf: u8,
+    /// both counters of the direction are first moved to this value (stateful: hook + setter), so
+    /// that the attack happens at a large message number
+    #[serde(default)]
+    pub jump: u64,
+    /// deliver the forged message this many extra times before the genuine one
+    #[serde(default)]
+    pub again: u8,
+}
+
+fn other_session(spec: &SessionSpec, same_statics: bool) -> Result<Pair, Fail> {
+    if same_statics {
+        // same key seed (statics, psks, prologue), ephemerals from a different RNG stream
+        let mut s2 = spec.clone();
+        s2.eph = EphMode::Rng;
+        let p256 = spec.suite.dh == crate::refcrypto::DhKind::P256;
+        let rng_i = crate::instr::SharedRng::seeded(mix(spec.key_seed, 0xE1), p256);
+        let rng_r = crate::instr::SharedRng::seeded(mix(spec.key_seed, 0xE2), p256);
+        let mut i = build_snow(&s2, true, &EpOverrides::default(), &Instr { rng: Some(rng_i.clone()), log: None }).map_err(|x| Fail::setup(e(&x)))?;
+        let mut r = build_snow(&s2, false, &EpOverrides::default(), &Instr { rng: Some(rng_r.clone()), log: None }).map_err(|x| Fail::setup(e(&x)))?;
+        for k in 0..spec.n_msgs() {
+            let (w, rd) = if k % 2 == 0 { (&mut i, &mut r) } else { (&mut r, &mut i) };
+            let m = hs_write(w, b"", 65535).map_err(|x| Fail::setup(e(&x)))?;
+            hs_read(rd, &m, 65535).map_err(|x| Fail::setup(e(&x)))?;
+        }
+        Ok(Pair { i, r, rng_i, rng_r })
+    } else {
+        let mut other = spec.clone();
+        other.key_seed = mix(spec.key_seed, 0xB2B2);
+        drive_to(&other, other.n_msgs())
+    }
 }
 
 fn forged_buf(kind: u8, msg_len: usize) -> Vec<u8> {
-    let n = match kind % 4 {
+    let n = match kind % 6 {
         0 => 70000,
         1 => msg_len.saturating_sub(16),
         2 => msg_len,
-        _ => msg_len.saturating_sub(15),
+        3 => msg_len.saturating_sub(15),
+        // too small for the payload (the delivery must be rejected and change nothing)
+        4 => msg_len.saturating_sub(17),
+        _ => 0,
     };
     vec![0u8; n]
 }
@@ -72,7 +107,7 @@ fn oracle(c: &Case, acc: &mut Acc) -> CaseResult {
     }
     let pair = drive_to(spec, spec.n_msgs())?;
     let payload = expand(spec.key_seed, 21, c.plen);
-    let what = format!("{name} [{:?}/{:?}] {} stateless={} payload {} prior {} forgery {:?} fbuf {}", spec.backend_i, spec.backend_r, if c.r_to_i { "r->i" } else { "i->r" }, c.stateless, c.plen, c.prior, c.forgery, c.fbuf % 4);
+    let what = format!("{name} [{:?}/{:?}] {} stateless={} payload {} prior {} forgery {:?} fbuf {} jump {} again {}", spec.backend_i, spec.backend_r, if c.r_to_i { "r->i" } else { "i->r" }, c.stateless, c.plen, c.prior, c.forgery, c.fbuf % 6, c.jump, c.again);
     if c.stateless {
         let ti = pair.i.into_stateless_transport_mode().map_err(|x| Fail::setup(e(&x)))?;
         let tr = pair.r.into_stateless_transport_mode().map_err(|x| Fail::setup(e(&x)))?;
@@ -83,7 +118,7 @@ fn oracle(c: &Case, acc: &mut Acc) -> CaseResult {
                 (*n, m, *n2)
             },
             f => {
-                let n = c.prior as u64;
+                let n = c.jump.wrapping_add(c.prior as u64) % (u64::MAX - 1);
                 let m = sl_write(w, n, &payload, c.plen + 16).map_err(|x| Fail::setup(format!("{what}: write: {}", e(&x))))?;
                 let forged = match f {
                     Forgery::Flip(p, b) => {
@@ -99,10 +134,8 @@ fn oracle(c: &Case, acc: &mut Acc) -> CaseResult {
                         x
                     },
                     Forgery::Garbage(l) => expand(spec.key_seed, 23, *l),
-                    Forgery::OtherSession => {
-                        let mut other = spec.clone();
-                        other.key_seed = mix(spec.key_seed, 0xB2B2);
-                        let p2 = drive_to(&other, other.n_msgs())?;
+                    Forgery::OtherSession | Forgery::OtherSessionSameStatics => {
+                        let p2 = other_session(spec, *f == Forgery::OtherSessionSameStatics)?;
                         let t2 = if c.r_to_i { p2.r } else { p2.i }.into_stateless_transport_mode().map_err(|x| Fail::setup(e(&x)))?;
                         sl_write(&t2, n, &payload, c.plen + 16).map_err(|x| Fail::setup(e(&x)))?
                     },
@@ -128,15 +161,22 @@ fn oracle(c: &Case, acc: &mut Acc) -> CaseResult {
             acc.skip("forgery equals the genuine message");
             return Ok(());
         }
-        let mut buf = forged_buf(c.fbuf, forged.len());
-        let res = r.read_message(n2, &forged, &mut buf);
-        ensure!(res.is_err(), "{what}: forged/misdirected delivery (nonce {n2} for a message written under {n}, output buffer {} bytes) was ACCEPTED: {res:?}", buf.len());
+        for rep in 0..1 + c.again % 3 {
+            let mut buf = forged_buf(c.fbuf.wrapping_add(rep), forged.len());
+            let res = r.read_message(n2, &forged, &mut buf);
+            ensure!(res.is_err(), "{what}: forged/misdirected delivery {} (nonce {n2} for a message written under {n}, output buffer {} bytes) was ACCEPTED: {res:?}", rep + 1, buf.len());
+        }
         let got = sl_read(r, n, &genuine, c.plen).map_err(|x| Fail::new(format!("{what}: the genuine message is rejected: {}", e(&x))))?;
         ensure!(got == payload, "{what}: genuine message returned a different payload");
     } else {
         let mut ti = pair.i.into_transport_mode().map_err(|x| Fail::setup(e(&x)))?;
         let mut tr = pair.r.into_transport_mode().map_err(|x| Fail::setup(e(&x)))?;
         let (w, r) = if c.r_to_i { (&mut tr, &mut ti) } else { (&mut ti, &mut tr) };
+        if c.jump != 0 {
+            let j = c.jump % (u64::MAX - 10);
+            w.verif_set_sending_nonce(j);
+            r.set_receiving_nonce(j);
+        }
         let mut last = Vec::new();
         for k in 0..c.prior {
             let p = expand(spec.key_seed, 30 + k as u64, 3 + k);
@@ -160,12 +200,10 @@ fn oracle(c: &Case, acc: &mut Acc) -> CaseResult {
                 x
             },
             Forgery::Garbage(l) => expand(spec.key_seed, 23, *l),
-            Forgery::OtherSession => {
-                let mut other = spec.clone();
-                other.key_seed = mix(spec.key_seed, 0xB2B2);
-                let p2 = drive_to(&other, other.n_msgs())?;
+            Forgery::OtherSession | Forgery::OtherSessionSameStatics => {
+                let p2 = other_session(spec, c.forgery == Forgery::OtherSessionSameStatics)?;
                 let mut t2 = if c.r_to_i { p2.r } else { p2.i }.into_transport_mode().map_err(|x| Fail::setup(e(&x)))?;
-                t2.verif_set_sending_nonce(c.prior as u64);
+                t2.verif_set_sending_nonce((c.jump % (u64::MAX - 10)).wrapping_add(c.prior as u64));
                 t_write(&mut t2, &payload, c.plen + 16).map_err(|x| Fail::setup(e(&x)))?
             },
             Forgery::Early => t_write(w, &payload, c.plen + 16).map_err(|x| Fail::setup(e(&x)))?,
@@ -188,9 +226,11 @@ fn oracle(c: &Case, acc: &mut Acc) -> CaseResult {
             },
         };
         if forged != genuine {
-            let mut buf = forged_buf(c.fbuf, forged.len());
-            let res = r.read_message(&forged, &mut buf);
-            ensure!(res.is_err(), "{what}: forged delivery (output buffer {} bytes) was ACCEPTED: {res:?}", buf.len());
+            for rep in 0..1 + c.again % 3 {
+                let mut buf = forged_buf(c.fbuf.wrapping_add(rep), forged.len());
+                let res = r.read_message(&forged, &mut buf);
+                ensure!(res.is_err(), "{what}: forged delivery {} (output buffer {} bytes) was ACCEPTED: {res:?}", rep + 1, buf.len());
+            }
         }
         let got = t_read(r, &genuine, c.plen).map_err(|x| Fail::new(format!("{what}: the genuine message is rejected (after the forged delivery): {}", e(&x))))?;
         ensure!(got == payload, "{what}: genuine message returned a different payload");
@@ -265,14 +305,14 @@ pub fn run(ctx: &Ctx) {
                         f.push(Forgery::Extend(k));
                     }
                 }
-                f.extend([Forgery::Reflect, Forgery::OtherSession, Forgery::Early, Forgery::Replay, Forgery::Garbage(total), Forgery::Garbage(16), Forgery::Garbage(0)]);
+                f.extend([Forgery::Reflect, Forgery::OtherSession, Forgery::OtherSessionSameStatics, Forgery::Early, Forgery::Replay, Forgery::Garbage(total), Forgery::Garbage(16), Forgery::Garbage(0)]);
                 f.dedup();
                 for (fi, forgery) in f.into_iter().enumerate() {
                     for stateless in [false, true] {
                         // all four buffer relations for the short payloads, rotating for the rest
-                        let fbufs: Vec<u8> = if *plen <= 1 { vec![0, 1, 2, 3] } else { vec![((fi + ci) % 4) as u8] };
+                        let fbufs: Vec<u8> = if *plen <= 1 { vec![0, 1, 2, 3, 4, 5] } else { vec![((fi + ci) % 6) as u8] };
                         for fbuf in fbufs {
-                            cases.push(Case { spec: spec.clone(), r_to_i, plen: *plen, prior, forgery: forgery.clone(), stateless, fbuf });
+                            cases.push(Case { spec: spec.clone(), r_to_i, plen: *plen, prior, forgery: forgery.clone(), stateless, fbuf, jump: [0u64, 0, 254, 65534, (1 << 32) - 2, (1 << 48) + 5][(fi + ci + pk) % 6], again: ((fi + ci) % 4 == 0) as u8 * 2 });
                         }
                     }
                 }
@@ -283,11 +323,11 @@ pub fn run(ctx: &Ctx) {
                     continue;
                 }
                 for b in 0..64 {
-                    cases.push(Case { spec: spec.clone(), r_to_i, plen: if b % 8 == 0 { 0 } else { 5 }, prior: 0, forgery: Forgery::Nonce(*base, base ^ (1u64 << b)), stateless: true, fbuf: (b % 4) as u8 });
+                    cases.push(Case { spec: spec.clone(), r_to_i, plen: if b % 8 == 0 { 0 } else { 5 }, prior: 0, forgery: Forgery::Nonce(*base, base ^ (1u64 << b)), stateless: true, fbuf: (b % 6) as u8, jump: 0, again: (b % 3) as u8 });
                 }
             }
             for (a, b) in [(0u64, 1u64), (1, 0), (0xFFFF_FFFF, 0x1_0000_0000), (0x1_0000_0000, 0), (u64::MAX - 1, u64::MAX), (u64::MAX - 1, 0), (0, u64::MAX), (1 << 32, 1 << 33), (256, 1)] {
-                cases.push(Case { spec: spec.clone(), r_to_i, plen: 5, prior: 0, forgery: Forgery::Nonce(a, b), stateless: true, fbuf: (a % 4) as u8 });
+                cases.push(Case { spec: spec.clone(), r_to_i, plen: 5, prior: 0, forgery: Forgery::Nonce(a, b), stateless: true, fbuf: (a % 4) as u8, jump: 0, again: 0 });
             }
         }
     }
@@ -303,7 +343,7 @@ pub fn run(ctx: &Ctx) {
         for plen in if thorough { vec![0usize, 7, 64] } else { vec![0usize, 7] } {
             for p in 0..plen + 16 {
                 for b in 0..8u8 {
-                    ex.push(Case { spec: spec.clone(), r_to_i: ci % 2 == 1, plen, prior: ci % 2, forgery: Forgery::Flip(p, b), stateless: ci % 3 == 0, fbuf: ((p + b as usize) % 4) as u8 });
+                    ex.push(Case { spec: spec.clone(), r_to_i: ci % 2 == 1, plen, prior: ci % 2, forgery: Forgery::Flip(p, b), stateless: ci % 3 == 0, fbuf: ((p + b as usize) % 6) as u8, jump: if p % 5 == 0 { 65533 } else { 0 }, again: 0 });
                 }
             }
         }
@@ -331,7 +371,7 @@ pub fn run(ctx: &Ctx) {
                     },
                 };
                 let stateless = stateless || matches!(forgery, Forgery::Nonce(..));
-                Case { spec, r_to_i, plen, prior, forgery, stateless, fbuf: (a >> 60) as u8 }
+                Case { spec, r_to_i, plen, prior, forgery, stateless, fbuf: (a >> 60) as u8, jump: if b % 3 == 0 { [253u64, 65533, (1 << 24) - 2, (1 << 31) - 2, (1 << 32) - 2, (1 << 63) - 2][(b % 6) as usize] } else { 0 }, again: (a >> 58) as u8 % 3 }
             })
         },
         oracle,
